@@ -33,6 +33,9 @@ W_REL(WN(RoundTrip), uint64_t, F_DOM, {
     MP(Get_)(buf + 1, d, out);
     return a == b && b == c && c == c2 && c == d && a >= F_LO && a <= F_HI && out == x && buf[0] == g0 && buf[1 + need] == g1;
 })
+/* C04: encoded length never decreases as the value grows (on the real length macro) */
+W_REL2(WN(Mono), uint64_t, F_DOM, { uint8_t la, lb; MP(Length_)(la, a); MP(Length_)(lb, b); return a > b || la <= lb; })
+H_REL2(HN(Mono), WN(Mono), uint64_t, F_DOM)
 H_PUT(HN(Put), WN(Put), varintWidth, uint8_t, uint64_t, SP_LEN, SP_BYTE, F_LO, F_HI, F_DOM)
 H_LEN(HN(Length), WN(Length), uint64_t, SP_LEN, F_DOM)
 H_GETLEN(HN(GetLen), WN(GetLen), SP_GN, SP_GB0, F_GOK)
